@@ -751,7 +751,8 @@ fn expr_p13<'t>(
         st: &mut SymbolTable,
     ) -> ParseResult<'t, (Located<Expression>, Located<Expression>)> {
         let (input, _) = parse_token(Token::QuestionMark)(input)?;
-        let (input, left) = expr_p13(input, st)?;
+        // The expression between ? and : is delimited on both sides so it may be an assignment
+        let (input, left) = expr_p14(input, st)?;
         let (input, _) = parse_token(Token::Colon)(input)?;
         let (input, right) = expr_p13(input, st)?;
         Ok((input, (left, right)))
